@@ -276,6 +276,21 @@ where
             })
             .collect()
     }
+
+    /// Verification hook: a handle with which another thread can hold the pool lock for a while
+    /// (lock contention is a schedule like any other; nothing in the pool may depend on winning the lock).
+    pub(crate) fn verif_lock(&self) -> crate::verif::PoolLock
+    where
+        C: Send,
+    {
+        let inner = Arc::downgrade(&self.inner);
+        crate::verif::PoolLock::new(move |f| {
+            if let Some(inner) = inner.upgrade() {
+                let _guard = inner.lock();
+                f();
+            }
+        })
+    }
 }
 
 pub(in crate::client) struct PoolRef<C, B>
